@@ -658,6 +658,27 @@ pub fn pipeline(c: &Value) -> Value {
             let want: Vec<(String, Vec<u8>)> = samples.iter().filter(|(s, _)| s == sn).flat_map(|(_, cs)| cs.clone()).collect();
             if got != want { let _ = std::fs::remove_file(&path); return Err(format!("round trip differs for {}", sn)); }
         }
+        // the same archive through the independent format-rule reader (replay/src/indep.rs)
+        if c.get("indep").and_then(|x| x.as_bool()).unwrap_or(true) {
+            let r = (|| -> Result<(), String> {
+                let a = crate::indep::indep::Agc::open(path.to_str().unwrap())?;
+                let got: Vec<String> = a.samples.iter().map(|s| s.0.clone()).collect();
+                let mut exp: Vec<String> = vec![];
+                for (sn, _) in samples.iter() { if !exp.contains(sn) { exp.push(sn.clone()); } }
+                if got != exp { return Err(format!("sample list {:?} != {:?}", got, exp)); }
+                for (sn, contigs) in a.samples.iter() {
+                    let want: Vec<(String, Vec<u8>)> = samples.iter().filter(|(s, _)| s == sn).flat_map(|(_, cs)| cs.clone()).collect();
+                    if contigs.len() != want.len() { return Err(format!("sample {}: {} contigs, {} pushed", sn, contigs.len(), want.len())); }
+                    for ((cn, segs), (wn, wd)) in contigs.iter().zip(want.iter()) {
+                        if cn != wn { return Err(format!("sample {}: contig name {:?} != {:?}", sn, cn, wn)); }
+                        let d = a.contig(segs)?;
+                        if &d != wd { return Err(format!("sample {} contig {}: decoded bases differ from the input", sn, cn)); }
+                    }
+                }
+                Ok(())
+            })();
+            if let Err(e) = r { let _ = std::fs::remove_file(&path); return Err(format!("independent reader: {}", e)); }
+        }
         let _ = std::fs::remove_file(&path);
         Ok(data)
     };
